@@ -12,7 +12,7 @@ import (
 
 func init() {
 	Register(&PropDef{
-		ID: "C12", QuickRuns: 1600, Level: "fault_enumeration",
+		ID: "C12", QuickRuns: 6400, Level: "fault_enumeration",
 		Rule: "one run draws max_req_retries N (1,2,3,5), resp_timeout, heartbeat interval and feature flags, then runs one sub-scenario: (hb) for EVERY k in 1..N+1 a heartbeat cycle in which the peer answers exactly the k-th transmission, then a cycle with late / duplicated / wrong-sequence answers, then a cycle answered never: transmissions are counted and their spacing measured on the virtual clock at the peer; (peer-hb) heartbeats from the peer before and after association, Recovery Time Stamp stability and postponement of the agent's own heartbeat; (gate) Association Setup attempts with the datapath flapping between READY and not READY and feature bits vs configuration; (initiated) agent-initiated association towards a configured peer answering the k-th transmission or never. Non-trivial = at least one association and one dropped answer; distinct = different (sub-scenario, N, timeout, interval, k pattern, outcome).",
 		Assume: []string{"network latency is constant in this check (200 us each way) so that spacing can be judged to 2 ms", "'declared dead' is observed as delete commands at the simulated BESS and a fresh Association Setup being served"},
 		Real: CommonReal, Simulated: CommonSim,
@@ -78,7 +78,27 @@ func scenarioC12(r *Run) {
 		if n == answerAt {
 			if atEdge {
 				seq := m.Msg.Sequence()
-				r.Sim.After(tout-400*time.Microsecond+edgeOff, func() {
+				// aim at the very instant the agent's wait for this transmission
+				// expires: the pending timer nearest to (sent + resp_timeout)
+				lat := int64(r.W.Net.ToAgent.LatMin)
+				target := m.At - lat + int64(tout)
+				best := int64(0)
+				for _, at := range r.Sim.TimersDue(r.Inc, int64(tout)+int64(time.Millisecond)) {
+					d0, d1 := at-target, best-target
+					if d0 < 0 {
+						d0 = -d0
+					}
+					if d1 < 0 {
+						d1 = -d1
+					}
+					if best == 0 || d0 < d1 {
+						best = at
+					}
+				}
+				if best == 0 || best-target > int64(time.Millisecond) || target-best > int64(time.Millisecond) {
+					best = target
+				}
+				r.Sim.At(best-lat+int64(edgeOff), func() {
 					p.SendMsg(message.NewHeartbeatResponse(seq, ie.NewRecoveryTimeStamp(p.TS)))
 				})
 				r.Fault("answer-at-retransmission-instant")
@@ -187,7 +207,18 @@ func c12Heartbeats(r *Run, p *Peer, N int, tout, hbi time.Duration, answerAt *in
 		variant := []string{"", "", "dup", "wrongseq", "edge"}[r.Ch.Choose(5, "variant")]
 		*atEdge = variant == "edge" && k <= N
 		if *atEdge {
-			*edgeOff = time.Duration(r.Ch.Choose(200, "edge-us")-100) * time.Microsecond
+			// mostly the exact instant (the timer's task and the reader then run
+			// against each other), sometimes a little before or after
+			switch c := r.Ch.Choose(12, "edge"); {
+			case c < 6:
+				*edgeOff = 0
+			case c < 9:
+				*edgeOff = []time.Duration{1, -1, 3}[c-6]
+			case c < 11:
+				*edgeOff = []time.Duration{40 * time.Microsecond, -40 * time.Microsecond}[c-9]
+			default:
+				*edgeOff = time.Duration(r.Ch.Choose(200, "edge-us")-100) * time.Microsecond
+			}
 		} else if variant == "edge" {
 			variant = ""
 		}
